@@ -50,9 +50,9 @@ def main():
                   "baseline_off_cmd": "cd /repo && env -u PJPLAN_VERIF /venv/bin/python -m pytest -ra -q -p no:cacheprovider --timeout=900 --continue-on-collection-errors",
                   "source_commits": [], "add_only": True},
         "engines": [{"name": "graph", "path": "/verif/harness/eng_graph.py", "serves_properties": ["C01", "C05", "C11", "C15", "C16"],
-                     "kind_free_text": "TLA+ TaskGraph/MC_TaskGraph/TaskGraphTrace; BFS over real objects + TLC judge"},
+                     "kind_free_text": "TLA+ TaskGraph/MC_TaskGraph/TaskGraphTrace; BFS over real objects + TLC judge; repository tests replayed as traces (TestTrace)"},
                     {"name": "sched", "path": "/verif/harness/eng_sched.py", "serves_properties": ["C02", "C03", "C04", "C06", "C07", "C08", "C09", "C14"],
-                     "kind_free_text": "TLA+ Sched/SchedTrace (+Calendar); generated inputs executed by the real schedulers, judged by TLC"},
+                     "kind_free_text": "TLA+ Sched/SchedTrace (+Calendar) judge; Forward/Backward design machines model-checked (MC_Forward, MC_Backward) and replayed against recorded executions (ForwardTrace, BackwardTrace)"},
                     {"name": "crit", "path": "/verif/harness/eng_crit.py", "serves_properties": ["C12"],
                      "kind_free_text": "TLA+ CritPath/MC_CritPath/CritTrace"},
                     {"name": "query", "path": "/verif/harness/eng_query.py", "serves_properties": ["C18"],
